@@ -12,6 +12,14 @@ K_SPMV(spmv_avx512_4x12)
 K_SPMV(spmv_avx512_4x12_8)
 K_SPMV(mmult_avx512_4x12)
 K_SPMV(mmult_avx512_4x12_8)
+// the 4x12 block product with the output register aliasing a state register (all parameters are references: an in-place update of one block)
+#define K_MM4_CA(name) \
+extern "C" void k_##name##_ca0(uint64_t *ca0, const uint64_t *a1, const uint64_t *a2, const uint64_t *b) \
+  { VF_IN8(a0_, ca0); VF_IN8(a1_, a1); VF_IN8(a2_, a2); IN_B12; __m512i v0 = LD(ca0), v1 = LD(a1), v2 = LD(a2); Goldilocks::name(v0, v0, v1, v2, (const E *)b); ST(ca0, v0); } \
+extern "C" void k_##name##_ca2(uint64_t *ca2, const uint64_t *a0, const uint64_t *a1, const uint64_t *b) \
+  { VF_IN8(a0_, a0); VF_IN8(a1_, a1); VF_IN8(a2_, ca2); IN_B12; __m512i v0 = LD(a0), v1 = LD(a1), v2 = LD(ca2); Goldilocks::name(v2, v0, v1, v2, (const E *)b); ST(ca2, v2); }
+K_MM4_CA(mmult_avx512_4x12)
+K_MM4_CA(mmult_avx512_4x12_8)
 extern "C" void k_dot_avx512(uint64_t *c2, const uint64_t *a0, const uint64_t *a1, const uint64_t *a2, const uint64_t *b)
   { IN_STATE; IN_B12; __m512i v0 = LD(a0), v1 = LD(a1), v2 = LD(a2); Goldilocks::dot_avx512((E *)c2, v0, v1, v2, (const E *)b); }
 #define K_MM(name) extern "C" void k_##name(uint64_t *a0, uint64_t *a1, uint64_t *a2, const uint64_t *M) \
